@@ -17,7 +17,6 @@
 -/
 import Model.Template
 import Proofs.JsonPrint
-import Proofs.ExportText
 import Proofs.RowTieMarshal
 import Proofs.FlowTieExport
 
@@ -79,27 +78,6 @@ theorem quote_is_one_string_token (s rest : Bytes) :
     Json.scanScalar (JsonWrite.quote s ++ rest) = some (.str (JsonQuote.sanitize s), rest) ∧
     ∀ b ∈ JsonWrite.quote s, 0x20 ≤ b :=
   ⟨JsonQuote.scanScalar_quote s rest, JsonQuote.quote_ge s⟩
-
-/-! ### JSON TEXT handed straight to `Export` / `CreateRow` (a string or []byte argument: `Proofs/ExportText`)
-
-  `ExportText.exportLine_str`: for a text argument `exportLine to` is `GetRow` UNDER THE OUTPUT TEMPLATE, the printing
-  of that very row, and a line feed — there is no second `CreateRow(Row)` pass. -/
-
-/-- One valid line or nothing, for the text route; and an emitted line implies that the text handed in was itself one
-    JSON object. -/
-theorem text_line_valid_or_nothing (env : Env) (hx : FloatTextOK env.ext) (to : Tmpl) (line w : Bytes) :
-    (exportLine env to (.str line) = .ok (w, none) →
-      ∃ body, w = body ++ [0x0A] ∧ Grammar.IsObjectText body ∧ Json.accepts body = true ∧
-        (0x0A : UInt8) ∉ body ∧ w.count 0x0A = 1 ∧ w.getLast? = some 0x0A ∧
-        Grammar.IsObjectText line) ∧
-    (∀ e, exportLine env to (.str line) = .ok (w, some e) → w = []) :=
-  ExportText.text_line_valid_or_nothing env hx to line w
-
-/-- A string and a byte slice holding the same text are exported alike. -/
-theorem text_bytes_or_string (env : Env) (to : Tmpl) (line : Bytes) :
-    exportLine env to (.bytes line) = exportLine env to (.str line) :=
-  ExportText.exportLine_bytes_eq_str env to line
-
 
 /-! ### The writer's code is the source's (Proofs/RowTieMarshal, Proofs/FlowTieExport)
 
